@@ -57,6 +57,36 @@ Proof.
   rewrite skipz_skipz by (pose proof (len_nonneg (tb c)); lia). reflexivity.
 Qed.
 
+(* what the template lemmas need of a cursor: it is well-formed and reads the rest of the input (the buffer before the
+   cursor may have been lower-cased) *)
+Definition binv (d : list Z) (z : lx) : Prop := lx_wf z /\ lx_len z = len d /\ rem z = skipz (lpos z) d.
+
+Lemma binv_of_inv d l : html_inv d l -> binv d (lz l).
+Proof. intros Hi. pose proof Hi as ((Hw & _) & Hlen & _). split; [exact Hw|]. split; [exact Hlen|apply rem_inv; exact Hi]. Qed.
+
+Lemma bzat_wf d l a : binv d (lz l) -> lpos (lz l) <= a <= len d -> lx_wf (zat l a) /\ rem (zat l a) = skipz a d.
+Proof.
+  intros (Hw & Hlen & Hrem0) Ha.
+  assert (E : zat l a = mv (lz l) (a - lpos (lz l))) by (unfold zat, mv; f_equal; lia).
+  destruct (rem_mv (lz l) (a - lpos (lz l)) Hw) as [Hr Hw']; [rewrite len_rem by exact Hw; lia|].
+  rewrite E. split; [exact Hw'|]. rewrite Hr, Hrem0.
+  assert (0 <= lpos (lz l)) by (destruct Hw as (_ & ? & _); lia).
+  rewrite skipz_skipz by lia. f_equal. lia.
+Qed.
+
+Lemma bregion_here c d l a : binv d (lz l) -> lpos (lz l) <= a <= len d -> tb c <> [] ->
+  prefixb (tb c) (skipz a d) = true -> is_region c d a (region_end_here c (zat l a)).
+Proof.
+  intros Hi Ha Htb Hpre. destruct (bzat_wf d l a Hi Ha) as [Hw Hrem].
+  pose proof Hi as (Hwl & _). assert (0 <= lpos (lz l)) by (destruct Hwl as (_ & ? & _); lia).
+  split; [lia|]. split; [exact Htb|]. split; [exact Hpre|].
+  unfold region_end_here. rewrite Hrem. cbn [zat lpos].
+  rewrite (region_len_fuel (te c) (length (skipz a d)) (length d)).
+  2: apply length_skipz_le'.
+  2: { eapply Nat.le_trans; [apply length_skipz_le'|apply length_skipz_le']. }
+  rewrite skipz_skipz by (pose proof (len_nonneg (tb c)); lia). reflexivity.
+Qed.
+
 Lemma is_region_fun c d p q q' : is_region c d p q -> is_region c d p q' -> q = q'.
 Proof. intros (_ & _ & _ & ->) (_ & _ & _ & ->). reflexivity. Qed.
 
@@ -425,7 +455,7 @@ Section AttrConverse.
 Variables (c : cfg) (d : list Z) (l0 : lexer).
 Hypothesis Hc : cfg_ok c.
 Hypothesis Htb : tb c <> [].
-Hypothesis Hi : html_inv d l0.
+Hypothesis Hi : binv d (lz l0).
 
 (* the cursor s is at or after the call's cursor; if the flag is set, a region lies between the two *)
 Definition RI (s : lx) (h : bool) : Prop :=
@@ -445,7 +475,8 @@ Proof. unfold has_delims. destruct (tb c); congruence. Qed.
 
 Lemma tmpl_step s z' h : RI s h -> at_ s (tb c) = Ok true -> tmpl_skip c s = Ok z' -> RI z' true.
 Proof.
-  intros [[Hsm Hle] _] Hat Hsk. pose proof Hi as ((Hw & _) & Hlen & _). pose proof (inv_pos0 d l0 Hi) as H0.
+  intros [[Hsm Hle] _] Hat Hsk. pose proof Hi as (Hw & Hlen & _).
+  assert (H0 : 0 <= lpos (lz l0)) by (destruct Hw as (_ & ? & _); lia).
   assert (Ha : lpos s <= len d).
   { apply at_from_buf in Hat; [|exact Htb]. rewrite Z.add_0_r in Hat. destruct Hsm as [Hb _]. rewrite Hb in Hat.
     destruct (tb c) as [|x t] eqn:E; [congruence|]. symmetry in Hat. apply prefixb_head in Hat. destruct Hat as [s' Es].
@@ -453,10 +484,10 @@ Proof.
     assert (E0 : skipz (lpos s) (lbuf (lz l0)) = []) by (unfold skipz; apply skipn_all2; unfold lx_len, len in *; lia).
     congruence. }
   rewrite (same_zat l0 s Hsm) in Hat, Hsk.
-  destruct (zat_wf d l0 (lpos s) Hi ltac:(lia)) as [Hws Hrem].
+  destruct (bzat_wf d l0 (lpos s) Hi ltac:(lia)) as [Hws Hrem].
   rewrite at_rem in Hat by (apply Hc || exact Hws). injection Hat as Hpre.
   destruct (tmpl_skip_here c _ Hc Hws Hpre) as [Hsk' Hle']. rewrite Hsk' in Hsk. injection Hsk as <-.
-  pose proof (region_here c d l0 (lpos s) Hi ltac:(lia) Htb ltac:(rewrite <- Hrem; exact Hpre)) as Hreg.
+  pose proof (bregion_here c d l0 (lpos s) Hi ltac:(lia) Htb ltac:(rewrite <- Hrem; exact Hpre)) as Hreg.
   destruct (is_region_in _ _ _ _ Hreg) as [_ Hlt].
   split; [split; [split; reflexivity|cbn [lpos]; lia]|].
   intros _. exists (lpos s), (region_end_here c (zat l0 (lpos s))). cbn [lpos]. split; [lia|]. split; [lia|exact Hreg].
@@ -622,7 +653,7 @@ Proof.
   destruct isattr.
   - match type of Hn with rbind ?e _ = _ => destruct e as [[v1 l1]| |] eqn:Ea end; cbn [rbind] in Hn; try discriminate.
     cbn [fst snd] in Hn. injection Hn as _ <-.
-    eapply (shift_attribute_regions c d l Hc Htb Hi _ z1 v1 l1); [|exact Ea|exact Hhas].
+    eapply (shift_attribute_regions c d l Hc Htb (binv_of_inv d l Hi) _ z1 v1 l1); [|exact Ea|exact Hhas].
     cbn [lhas]. split; [exact Hs1|discriminate].
   - match type of Hn with rbind ?e _ = _ => destruct e as [s| |] end; cbn [rbind] in Hn; try discriminate.
     destruct (c0 =? 47); discriminate.
